@@ -454,6 +454,16 @@ fn run_csr<Ty: EdgeType, Ix: IndexType>(
         }
     }
     dump_csr(ctx, &g);
+    // open finding D31: beyond the index type's capacity `add_node` silently wraps (`Ix::new(i)`).
+    // Probe it as the LAST call of some u8 cases (the state is meaningless afterwards).
+    if w == 8 && rng.chance(30) {
+        while g.node_count() < 256 {
+            let r = g.add_node(0);
+            ctx.line("add_node 0", &r.index().to_string());
+        }
+        let r = catch(|| g.add_node(0).index());
+        ctx.line("add_node 0", &r.map(|x| x.to_string()).unwrap_or("panic".into()));
+    }
 }
 
 // ------------------------------------------------------------------------------------------------
@@ -710,6 +720,15 @@ fn run_list<Ix: IndexType>(ctx: &mut Ctx, rng: &mut Rng, case: u64, w: u32) {
     }
     let hs = pick_dump(rng, &handles, &stale, &foreign);
     dump_list(ctx, &g, &hs);
+    // open finding D31 (see run_csr): last call of some u8 cases
+    if w == 8 && rng.chance(30) {
+        while g.node_count() < 256 {
+            let r = g.add_node();
+            ctx.line("add_node", &r.index().to_string());
+        }
+        let r = catch(|| g.add_node().index());
+        ctx.line("add_node", &r.map(|x| x.to_string()).unwrap_or("panic".into()));
+    }
 }
 
 pub fn run(ctx: &mut Ctx, case: u64) {
